@@ -88,6 +88,7 @@ struct ChanOptions {
   int max_candidates = 64;
   uint64_t sample_mod = 1;  // execute only run indices divisible by this
   bool hashlog = false;     // write (idx, event-log hash) pairs per worker
+  uint64_t max_deaths = 0;  // 0 = pool default
 };
 
 int ChanBatch(const ChanOptions &opt);
@@ -95,7 +96,7 @@ int ChanBatch(const ChanOptions &opt);
 int ChanExec(const std::string &plans_path, const std::string &out_path,
              const std::string &repo, int workers, const std::string &log_dir);
 // Prints the plan of run |idx| of the batch described by |opt|.
-int ChanPlanOf(const ChanOptions &opt, uint64_t idx);
+int ChanPlanOf(const ChanOptions &opt, const std::string &idxs);
 
 }  // namespace sim
 
